@@ -261,6 +261,42 @@ func CheckC12(tier string) int {
 			}
 		}
 	}
+	// ---- part 4: rule changes on a state branch that is thrown away (a failed or simulated transaction) leave the
+	// authorisation as it was: R1 stored, R2 set on a discarded child branch, every triple judged against R1 again; then
+	// R2 written back, judged against R2
+	branchPairs := 0
+	short := lists[:1+len(small)]
+	for _, r1 := range short {
+		for _, r2 := range short {
+			ctx := c.ReadCtx(c.LastTime())
+			if err := rk.SetRoutingRules(ctx, r1); err != nil {
+				continue
+			}
+			child, write := ctx.CacheContext()
+			if err := rk.SetRoutingRules(child, r2); err != nil {
+				continue
+			}
+			branchPairs++
+			judge := func(stage string, rules []string) {
+				if stored, _ := rk.GetRoutingRules(ctx); strings.Join(stored, ";") != strings.Join(rules, ";") {
+					addF("stored-rules-differ-after-"+stage, fmt.Sprintf("R1=%v R2=%v: stored %v", r1, r2, stored), r1)
+				}
+				for _, x := range []string{"a", "b", "c"} {
+					for _, y := range []string{"a", "b", "c"} {
+						for _, z := range []string{"a", "b", "c"} {
+							evals++
+							if got, want := rk.Authenticate(ctx, x, y, z), ruleAllows(rules, x, y, z); got != want {
+								addF("authorisation-differs-after-"+stage, fmt.Sprintf("R1=%v, R2=%v set on a child branch, triple %s,%s,%s: authorised=%v, reference %v", r1, r2, x, y, z, got, want), r1)
+							}
+						}
+					}
+				}
+			}
+			judge("discarded-branch", r1)
+			write()
+			judge("written-branch", r2)
+		}
+	}
 	// nothing stored at all (fresh chain) authorises nothing
 	if rk.Authenticate(c.ReadCtx(c.LastTime()), "a", "b", "c") {
 		addF("no-rules-authorise-something", "fresh chain authorises a,b,c", "")
@@ -273,7 +309,8 @@ func CheckC12(tier string) int {
 		"exhaustive":   true,
 		"rule_strings": len(ruleStrs), "rules_accepted": accepted, "rules_rejected": rejected,
 		"match_fields": len(fields), "match_identifiers": len(idents), "authorised": authTrue, "unauthorised": authFalse, "rule_lists": len(lists),
-		"bounds": fmt.Sprintf("accept/reject: all strings of length <= %d over {a b . + [ ] * , (} plus hand-written boundary strings (64/65 characters, blanks, '/', newline, non-ASCII); matching: every rule field and identifier of length <= %d over {a b . + [ ] - # < > _} in each of the three positions with the other positions '*' and literal; all lists of <= 2 rules over {a,b,*}^3 against {a,b,c}^3", acceptLen, fieldLen),
+		"bounds":       fmt.Sprintf("accept/reject: all strings of length <= %d over {a b . + [ ] * , (} plus hand-written boundary strings (64/65 characters, blanks, '/', newline, non-ASCII); matching: every rule field and identifier of length <= %d over {a b . + [ ] - # < > _} in each of the three positions with the other positions '*' and literal; all lists of <= 2 rules over {a,b,*}^3 against {a,b,c}^3; every ordered pair of lists of <= 1 rule: the second set on a child state branch that is first discarded, then written", acceptLen, fieldLen),
+		"branch_pairs": branchPairs,
 	}
 	fmt.Fprintf(os.Stderr, "[C12] evaluations=%d accepted=%d rejected=%d authorised=%d unauthorised=%d (%.1fs)\n", evals, accepted, rejected, authTrue, authFalse, time.Since(start).Seconds())
 	return report.Finish("C12", tier, start, "model_checking", cov, []string{
